@@ -2,6 +2,7 @@ package main
 
 import (
 	"fmt"
+	"go/constant"
 	"go/types"
 
 	"golang.org/x/tools/go/ssa"
@@ -211,4 +212,166 @@ func traceVerbatimV(p *Program, v ssa.Value, kind string, seen map[ssa.Value]boo
 		return "the value passes through " + cal.String(), 1
 	}
 	return fmt.Sprintf("value of shape %T", v), 2
+}
+
+// singleEntryC07: an object-valued parameter names its kind with exactly one
+// key; with any other number of entries the choice would depend on Go's map
+// iteration order.
+func singleEntryC07(c *Ctx) {
+	p := c.P
+	c.Rule("C07.singleentry", "bindObjectValue, evaluated with the number of entries of the object bound to 0, 2 and 3, never reaches the loop that picks the (kind, value) pair and returns only an ErrorValue: the pair is taken from the map only when it is the only one")
+	f := p.SSAFunc(p.Func("bindObjectValue"))
+	if f == nil || len(f.Params) != 1 {
+		c.Unk("C07.singleentry", "bindObjectValue", 0, "anchor not found")
+		return
+	}
+	var lens []ssa.Value
+	var ranges []*ssa.Range
+	for _, b := range f.Blocks {
+		for _, in := range b.Instrs {
+			switch x := in.(type) {
+			case *ssa.Call:
+				if bi, ok := x.Call.Value.(*ssa.Builtin); ok && bi.Name() == "len" && len(x.Call.Args) == 1 && x.Call.Args[0] == ssa.Value(f.Params[0]) {
+					lens = append(lens, x)
+				}
+			case *ssa.Range:
+				if x.X == ssa.Value(f.Params[0]) {
+					ranges = append(ranges, x)
+				}
+			}
+		}
+	}
+	if len(lens) == 0 {
+		c.Bad("C07.singleentry", "bindObjectValue: entry count", f.Pos(), "the number of entries of the object is never looked at: with several entries the kind is whichever key Go's map iteration yields last")
+		return
+	}
+	if len(ranges) == 0 {
+		c.Unk("C07.singleentry", "bindObjectValue: entry loop", f.Pos(), "no range over the object found")
+		return
+	}
+	for _, n := range []int64{0, 2, 3} {
+		s := p.newSCCP()
+		s.override = map[ssa.Value]cval{}
+		for _, l := range lens {
+			s.override[l] = cConst(constant.MakeInt64(n))
+		}
+		r := s.run(f, nil, 0)
+		key := fmt.Sprintf("bindObjectValue: object with %d entries", n)
+		reached := false
+		for _, rg := range ranges {
+			if r.execB[rg.Block().Index] {
+				reached = true
+			}
+		}
+		if reached {
+			c.Bad("C07.singleentry", key, ranges[0].Pos(), "the pair-picking loop is reached: the bound kind and value depend on map iteration order (or on nothing, for an empty object)")
+		} else {
+			c.OK("C07.singleentry", key, ranges[0].Pos(), "rejected before the loop")
+		}
+	}
+}
+
+// bindNonNilRule: a bound value is never the nil interface.
+func bindNonNilRule(c *Ctx, rule string) {
+	p := c.P
+	c.Rule(rule, "BindValue and bindObjectValue return a non-nil Value on every path (a concrete kind or an ErrorValue): Parser.scan calls TokenType and Value on whatever the parameter map holds, so a nil entry is a nil-interface method call, a panic, the first time the placeholder is scanned")
+	n := 0
+	for _, name := range []string{"BindValue", "bindObjectValue"} {
+		f := p.SSAFunc(p.Func(name))
+		if f == nil {
+			c.Unk(rule, name, 0, "anchor not found")
+			continue
+		}
+		i := 0
+		for _, b := range f.Blocks {
+			ret, ok := b.Instrs[len(b.Instrs)-1].(*ssa.Return)
+			if !ok || len(ret.Results) != 1 {
+				continue
+			}
+			i++
+			n++
+			key := fmt.Sprintf("%s: return #%d", name, i)
+			switch v := ret.Results[0].(type) {
+			case *ssa.Const:
+				if v.Value == nil {
+					c.Bad(rule, key, ret.Pos(), "returns the nil Value: scanning a placeholder bound to it calls a method on a nil interface")
+				} else {
+					c.OK(rule, key, ret.Pos(), "constant value")
+				}
+			case *ssa.MakeInterface:
+				c.OK(rule, key, ret.Pos(), "a concrete "+p.TypeStr(v.X.Type()))
+			case *ssa.Call:
+				if cal := v.Call.StaticCallee(); cal != nil && cal.Pkg == p.SPkg {
+					c.OK(rule, key, ret.Pos(), "delegates to "+cal.Name()+", decided there")
+				} else {
+					c.Unk(rule, key, ret.Pos(), "result of a call this rule does not follow")
+				}
+			default:
+				c.Unk(rule, key, ret.Pos(), fmt.Sprintf("result of shape %T", v))
+			}
+		}
+	}
+	c.Floor(rule, n, 10)
+}
+
+// setParamsC07: SetParams replaces the bindings, it does not add to them.
+func setParamsC07(c *Ctx) {
+	p := c.P
+	c.Rule("C07.setparams", "Parser.SetParams stores a freshly made map into Parser.params in a block that dominates every entry it then writes: the bindings in force are exactly those of the last call, so a name the caller no longer binds is unbound (an error), not silently substituted from an earlier call")
+	f := p.SSAFunc(p.Method("Parser", "SetParams"))
+	if f == nil {
+		c.Unk("C07.setparams", "(*Parser).SetParams", 0, "anchor not found")
+		return
+	}
+	var fresh []*ssa.Store
+	var updates []*ssa.MapUpdate
+	for _, b := range f.Blocks {
+		for _, in := range b.Instrs {
+			switch x := in.(type) {
+			case *ssa.Store:
+				if fa, ok := x.Addr.(*ssa.FieldAddr); ok && fieldNameOf(fa) == "params" {
+					if _, ok := x.Val.(*ssa.MakeMap); ok {
+						fresh = append(fresh, x)
+					}
+				}
+			case *ssa.MapUpdate:
+				updates = append(updates, x)
+			}
+		}
+	}
+	key := "(*Parser).SetParams: bindings replaced"
+	switch {
+	case len(updates) == 0:
+		c.Unk("C07.setparams", key, f.Pos(), "no map update found")
+	case len(fresh) == 0:
+		// building a local map and assigning it afterwards is the same thing
+		local := false
+		for _, u := range updates {
+			if _, ok := u.Map.(*ssa.MakeMap); ok {
+				local = true
+			}
+		}
+		if local {
+			c.OK("C07.setparams", key, f.Pos(), "entries are written into a map made in this call")
+		} else {
+			c.Bad("C07.setparams", key, f.Pos(), "no fresh map is stored into Parser.params: bindings of earlier calls stay in force")
+		}
+	default:
+		ok := true
+		for _, u := range updates {
+			if _, isLocal := u.Map.(*ssa.MakeMap); isLocal {
+				continue
+			}
+			dom := false
+			for _, st := range fresh {
+				if st.Block() == u.Block() || st.Block().Dominates(u.Block()) {
+					dom = true
+				}
+			}
+			if !dom {
+				ok = false
+			}
+		}
+		c.Check(ok, "C07.setparams", key, fresh[0].Pos(), "the fresh map is stored only on some paths (when none exists yet): a second call merges into the first call's bindings, so a name bound only earlier is still substituted")
+	}
 }
